@@ -25,8 +25,8 @@ LEN_LIST = _ops("len", "0", "1", "2", "3", "'x'", ("0", "..."), ("2", "..."), ("
                 ("...", "2"), ("...", "1"), ("0", "2"), ("2", "2"), ("1", "'x'"), ("...", "Nil"), ("True", "..."), ("...", "..."), ("Nil", "2"))
 
 REFINEMENTS = {
-    "int": (_ops("min", "0", "5", "6", "True", "-2**70", "1.5", "None") +
-            _ops("max", "0", "5", "4", "False", "2**70", "'x'", "...")),
+    "int": (_ops("min", "0", "5", "6", "True", "-2**70", "1.5", "None", "10**400") +
+            _ops("max", "0", "5", "4", "False", "2**70", "'x'", "...", "-10**400")),
     # incl. bounds that differ only below a declared precision (1.24 / 1.2, 0.04 / 0.0 at precision 1)
     "float": (_ops("min", "0.0", "2.5", "3.5", "-0.0", "float('nan')", "float('-inf')", "1", "None", "1.24", "0.04") +
               _ops("max", "0.0", "2.5", "-0.5", "float('nan')", "float('inf')", "3", "Nil", "1.2", "1.25") +
@@ -106,7 +106,7 @@ def run(ctx):
                         t0 = cschema(s0, KeyTable())
                         nan = ds.nan_param(s0)
                         for o, (_, s) in outcomes[1:]:
-                            same = (repr(s) == repr(s0)) and (cschema(s, KeyTable()) == t0) and (nan or (s == s0 and s0 == s))
+                            same = (repr(s) == repr(s0)) and (cschema(s, KeyTable()) == t0) and (s == s0 and s0 == s)   # NaN parameters included (F10 repaired)
                             if not same:
                                 rp.update(observed=f"{chain(first_order)} -> {s0!r} but {chain(o)} -> {s!r}",
                                           expected="equal schemas for every order")
